@@ -14,6 +14,10 @@ package retry_test
 //	     by script j (a missing script = success): read r messages (or until half-close), then
 //	     act 0 fail with code before headers (pushback pb: 0 none, 1 "1", 2 "-1", 3 two values),
 //	     act 1 send headers then fail with code, act 2 headers + one reply + OK
+//	op  [0, j, <op as above>]   the same RPC with two application goroutines: the SendMsg of
+//	     message j is held (by a client stats.Handler, at OutPayload = right after the transport
+//	     write on attempt 0, before withRetry re-takes cs.mu) until a concurrent RecvMsg has seen
+//	     attempt 0 fail, retried, and attempt 1 has received the replayed messages 1..j-1
 //	obs [nattempts, (grpc-previous-rpc-attempts, messages received, 1 iff they are messages
 //	     1..n in order with the right sizes, 1 iff the half-close was seen) x nattempts,
 //	     final status code seen by the application, replies received]
@@ -29,12 +33,14 @@ import (
 	"sync"
 	"testing"
 	"testing/synctest"
+	"time"
 
 	"google.golang.org/grpc"
 	"google.golang.org/grpc/codes"
 	"google.golang.org/grpc/credentials/insecure"
 	"google.golang.org/grpc/encoding"
 	"google.golang.org/grpc/metadata"
+	"google.golang.org/grpc/stats"
 	"google.golang.org/grpc/status"
 )
 
@@ -60,6 +66,35 @@ type vRetryEnv struct {
 	scripts []vRetryScript
 	sizes   []int64
 	log     []vRetryAttempt
+	stallJ  int64         // message index whose first SendMsg is held (0 = none)
+	armed   bool          // the hold has not been used yet
+	release chan struct{} // closed by attempt 1's handler once it has the replayed messages
+	relOnce *sync.Once
+}
+
+// client stats handler: holds the first SendMsg of message stallJ right after its transport write
+func (e *vRetryEnv) TagRPC(ctx context.Context, _ *stats.RPCTagInfo) context.Context   { return ctx }
+func (e *vRetryEnv) TagConn(ctx context.Context, _ *stats.ConnTagInfo) context.Context { return ctx }
+func (e *vRetryEnv) HandleConn(context.Context, stats.ConnStats)                       {}
+func (e *vRetryEnv) HandleRPC(_ context.Context, s stats.RPCStats) {
+	op, ok := s.(*stats.OutPayload)
+	if !ok || !op.Client {
+		return
+	}
+	b, ok := op.Payload.(*[]byte)
+	if !ok || len(*b) == 0 {
+		return
+	}
+	e.mu.Lock()
+	hold := e.armed && e.stallJ > 0 && int64((*b)[0]) == e.stallJ
+	if hold {
+		e.armed = false
+	}
+	rel := e.release
+	e.mu.Unlock()
+	if hold {
+		<-rel
+	}
 }
 
 func (e *vRetryEnv) handler(_ any, stream grpc.ServerStream) error {
@@ -93,6 +128,11 @@ func (e *vRetryEnv) handler(_ any, stream grpc.ServerStream) error {
 			at.inorder = 0
 		}
 		at.n++
+		e.mu.Lock()
+		if e.stallJ > 0 && prev == 1 && at.n == e.stallJ-1 {
+			e.relOnce.Do(func() { close(e.release) })
+		}
+		e.mu.Unlock()
 	}
 	e.mu.Lock()
 	e.log = append(e.log, at)
@@ -193,6 +233,7 @@ func vRetryExecIn(cfg []int64, ops [][]int64) ([][]int64, bool, []string) {
 		grpc.WithContextDialer(dialer),
 		grpc.WithDefaultServiceConfig(sc),
 		grpc.WithMaxCallAttempts(int(cfg[1])),
+		grpc.WithStatsHandler(env),
 	)
 	if err != nil {
 		panic("verif: NewClient: " + err.Error())
@@ -208,48 +249,81 @@ func vRetryExecIn(cfg []int64, ops [][]int64) ([][]int64, bool, []string) {
 
 	desc := &grpc.StreamDesc{StreamName: "M", ClientStreams: true, ServerStreams: true}
 	var out [][]int64
-	retried, bounded := false, false
+	retried, bounded, stalled := false, false, false
 	for _, op := range ops {
+		stallJ := int64(0)
+		if len(op) > 2 && op[0] == 0 {
+			stallJ = op[1]
+			op = op[2:]
+		}
 		sizes, scs, ok := vRetryDecode(op)
 		if !ok {
 			continue
 		}
+		if stallJ != 0 && (stallJ < 2 || stallJ > int64(len(sizes)) || len(scs) < 2 || scs[0].r != stallJ || scs[0].act != 0 || scs[0].pb > 1 || scs[1].r < stallJ) {
+			continue
+		}
 		env.mu.Lock()
 		env.scripts, env.sizes, env.log = scs, sizes, nil
+		env.stallJ, env.armed, env.release, env.relOnce = stallJ, false, make(chan struct{}), &sync.Once{}
 		env.mu.Unlock()
-		ctx, cancel := context.WithCancel(context.Background())
+		// a (virtual) one-hour deadline turns a lost message / deadlock into a status instead of a hang
+		ctx, cancel := context.WithTimeout(context.Background(), time.Hour)
 		final, replies := int64(0), int64(0)
 		stream, err := cc.NewStream(ctx, desc, "/verif.S/M", grpc.CallContentSubtype("verifraw"), grpc.MaxRetryRPCBufferSize(int(cfg[2])))
 		if err != nil {
 			final = int64(status.Code(err))
 		} else {
 			synctest.Wait()
+			recvAll := func() {
+				for {
+					var b []byte
+					err := stream.RecvMsg(&b)
+					if err == nil {
+						replies++
+						continue
+					}
+					if err != io.EOF {
+						final = int64(status.Code(err))
+					}
+					return
+				}
+			}
+			var recvDone chan struct{}
 			for i, s := range sizes {
 				b := make([]byte, s)
 				if s > 0 {
 					b[0] = byte(i + 1)
 				}
+				if stallJ != 0 && int64(i+1) == stallJ {
+					// from here on RecvMsg runs concurrently with the sends
+					env.mu.Lock()
+					env.armed = true
+					env.mu.Unlock()
+					recvDone = make(chan struct{})
+					go func() { defer close(recvDone); recvAll() }()
+					synctest.Wait()
+					stalled = true
+				}
 				err := stream.SendMsg(&b)
-				synctest.Wait()
+				if recvDone == nil {
+					synctest.Wait()
+				}
 				if err != nil {
 					break
 				}
 			}
 			stream.CloseSend()
-			synctest.Wait()
-			for {
-				var b []byte
-				err := stream.RecvMsg(&b)
-				if err == nil {
-					replies++
-					continue
-				}
-				if err != io.EOF {
-					final = int64(status.Code(err))
-				}
-				break
+			if recvDone != nil {
+				<-recvDone
+			} else {
+				synctest.Wait()
+				recvAll()
 			}
 		}
+		env.mu.Lock()
+		env.relOnce.Do(func() { close(env.release) })
+		env.mu.Unlock()
 		cancel()
 		synctest.Wait()
 		env.mu.Lock()
@@ -271,6 +345,9 @@ func vRetryExecIn(cfg []int64, ops [][]int64) ([][]int64, bool, []string) {
 	var tags []string
 	if bounded {
 		tags = append(tags, "hit-attempt-bound")
+	}
+	if stalled {
+		tags = append(tags, "held-send")
 	}
 	return out, retried, tags
 }
@@ -336,9 +413,23 @@ func vRetryGen(r *vRand, tier string, idx int) ([]int64, [][]int64) {
 			op = append(op, int64(1+r.Intn(int(m)+1)), act, code, pb)
 		}
 		ops = append(ops, op)
+		// the held-send schedule of a multi-message RPC
+		if m >= 2 && r.Chance(35) && bl >= 1000 {
+			j := int64(2 + r.Intn(int(m)-1))
+			st := append([]int64{0, j}, op[:1+int(m)]...)
+			k2 := int64(2 + r.Intn(3))
+			st = append(st, k2, j, 0, cs[r.Intn(len(cs))], r.PickI64(0, 0, 1))
+			st = append(st, j+int64(r.Intn(int(m-j)+2)), r.PickI64(0, 0, 2, 2, 1), cs[r.Intn(len(cs))], r.PickI64(0, 0, 1, 2))
+			for x := int64(2); x < k2; x++ {
+				st = append(st, int64(1+r.Intn(int(m)+1)), r.PickI64(0, 0, 1, 2), r.PickI64(14, 8, 4, 13), r.PickI64(0, 0, 1, 2, 3))
+			}
+			ops = append(ops, st)
+		}
 	}
 	if idx == 0 {
 		ops = [][]int64{
+			{0, 2, 2, 1, 1, 2, 2, 0, 14, 0, 3, 2, 1, 0},                      // SendMsg(2) overtaken by a retry done by RecvMsg
+			{0, 3, 3, 2, 2, 2, 3, 3, 0, 8, 1, 4, 0, 14, 0, 4, 2, 1, 0},          // held third message, two retries
 			{1, 3, 3, 1, 0, 14, 0, 1, 0, 8, 1, 1, 0, 14, 0},                // three failures, fourth attempt succeeds
 			{1, 3, 5, 1, 0, 14, 0, 1, 0, 14, 0, 1, 0, 14, 0, 1, 0, 14, 0, 1, 0, 14, 0}, // bound
 			{2, 3, 4, 2, 3, 0, 14, 0, 1, 1, 14, 0},                          // half-close replayed; headers then fail
